@@ -313,6 +313,12 @@ def gen_case(rng):
         )
         if op is None:
             continue
+        if op.get("via") in ("update", "ior", "setdefault"):
+            # a property put in through a dict method that bypasses binding has
+            # no attribute name until the first validation binds it; its class
+            # (and every class referring to it) prints differently before and
+            # after - nothing to do with inheritance, so not generated here
+            op["via"] = "setitem"
         try:
             trial = Family()
             for prev in ops:
